@@ -177,6 +177,7 @@ structure Inv {F : Type} (root : Nat) (tree : Array ParseNode) (G : Nat → Prop
   fresh : ∀ c, G c → ph c ≠ .p0 → c = root ∨ ∃ p, G p ∧ IsChild tree p c ∧ SchedDone tree ph p c
   p2two : ∀ (x : Nat) (pn : ParseNode), tree[x]? = some pn → ph x = .p2 →
     pn.definition ≠ .group ∧ pn.definition ≠ .nestedExpression
+  pni : ∀ (x : Nat) (bn : BuildNode), ctx.nodes[x]? = some (some bn) → bn.parseNodeIndex = x
 
 /-! ### node assignments -/
 
